@@ -218,7 +218,18 @@ class Session(object):
                   "network 1 0 %s" % self.r.choice("01")]
             for q in qs:
                 self.q(q)
+        x = self.r.random()
+        if x < 0.25 and ps:                 # a deletion the library must refuse: valid prefixes first, then a foreign or unknown one
+            m = self.we_map()
+            foreign = [p for k, v in m.items() if k != w for p in v]
+            bad = self.r.choice(foreign) if foreign and self.r.random() < 0.7 else self.any_lru()
+            ps = list(ps) + [bad]
+            if self.r.random() < 0.3:
+                self.r.shuffle(ps)
         r = self.do("delete %d %s" % (w, brack([hx(p) for p in ps])))
+        if x < 0.25:                        # resolution below every listed prefix, right after the (refused) deletion
+            for p in ps[:3]:
+                self.q("retrievewe " + hx(p + self.r.choice([b"", b"p:zz|"])))
         if probe:
             for q in qs:
                 self.q(q)
